@@ -23,10 +23,21 @@ const c11Watchdog = 5 * time.Second
 var c11EngineCalls atomic.Int64
 var c11QueriesRun atomic.Int64
 
-// c11Guard runs one engine call under the watchdog and converts a panic of the
-// code under test into a message. A call that does not return within the
-// watchdog is a violation of "every traversal terminates".
+// c11Guard runs one engine call under a watchdog and converts a panic of the
+// code under test into a message. Set-up and graph-building calls (which write
+// to disk) get a generous limit; they are not what the property is about.
 func c11Guard(what string, f func()) string {
+	return c11GuardFor(what, 6*c11Watchdog, f)
+}
+
+// c11GuardQuery runs one (read-only, repeatable) traversal query under the 5 s
+// watchdog. A query on a <= 7 node graph takes microseconds. One that has not
+// returned after 5 s is given until 20 s; if it never returns it is reported as
+// non-terminating; if it does return late it is asked once more (after the
+// first attempt has ended, never concurrently) and is reported unless the
+// second attempt is back within 5 s - so that a stalled machine is not
+// mistaken for a runaway traversal.
+func c11GuardQuery(what string, f func()) string {
 	c11EngineCalls.Add(1)
 	done := make(chan string, 1)
 	go func() {
@@ -44,7 +55,53 @@ func c11Guard(what string, f func()) string {
 	case m := <-done:
 		return m
 	case <-tm.C:
-		return fmt.Sprintf("%s did not return within %s (traversal does not terminate)", what, c11Watchdog)
+	}
+	late := fmt.Sprintf("%s did not return within %s (the traversal does not terminate in time)", what, c11Watchdog)
+	tm2 := time.NewTimer(3 * c11Watchdog)
+	defer tm2.Stop()
+	select {
+	case m := <-done:
+		if m != "" {
+			return m
+		}
+	case <-tm2.C:
+		c11Hung.Store(true)
+		return fmt.Sprintf("%s did not return within %s (the traversal does not terminate)", what, 4*c11Watchdog)
+	}
+	if m2 := c11GuardFor(what, c11Watchdog, f); m2 != "" {
+		return late + "; second attempt: " + m2
+	}
+	c11WatchdogRetries.Add(1)
+	return ""
+}
+
+var c11WatchdogRetries atomic.Int64
+
+// c11Hung is set once a call has been abandoned while still running. The
+// abandoned goroutine keeps a core busy, so the campaign stops executing
+// further cases in this process (they would report nothing reliable).
+var c11Hung atomic.Bool
+
+func c11GuardFor(what string, limit time.Duration, f func()) string {
+	c11EngineCalls.Add(1)
+	done := make(chan string, 1)
+	go func() {
+		defer func() {
+			if r := recover(); r != nil {
+				done <- fmt.Sprintf("%s panicked: %v", what, r)
+			}
+		}()
+		f()
+		done <- ""
+	}()
+	tm := time.NewTimer(limit)
+	defer tm.Stop()
+	select {
+	case m := <-done:
+		return m
+	case <-tm.C:
+		c11Hung.Store(true)
+		return fmt.Sprintf("%s did not return within %s (the call does not terminate)", what, limit)
 	}
 }
 
@@ -305,7 +362,7 @@ func c11CheckPath(e *engine.Engine, c c11Case, mod *c11Model, clk *c11Clock, q c
 	T := clk.resolve(q.T)
 	var res *engine.PathResult
 	var err error
-	if m := c11Guard("FindPath", func() {
+	if m := c11GuardQuery("FindPath", func() {
 		res, err = e.FindPath(c11Index, c11Node(q.Src), c11Node(q.Dst), q.Rels, q.Depth, T)
 	}); m != "" {
 		return m
@@ -362,7 +419,7 @@ func c11CheckSub(e *engine.Engine, c c11Case, mod *c11Model, clk *c11Clock, q c1
 	T := clk.resolve(q.T)
 	var res *engine.SubgraphResult
 	var err error
-	if m := c11Guard("VExtractSubgraph", func() {
+	if m := c11GuardQuery("VExtractSubgraph", func() {
 		res, err = e.VExtractSubgraph(c11Index, c11Node(q.Src), q.Rels, q.Depth, T, nil, 0)
 	}); m != "" {
 		return m
@@ -396,11 +453,19 @@ func c11CheckSub(e *engine.Engine, c c11Case, mod *c11Model, clk *c11Clock, q c1
 		}
 	}
 	rs := c11RelSet(q.Rels)
+	seen := map[engine.SubgraphEdge]bool{}
 	for _, ed := range res.Edges {
 		x, y := c11NodeIndex(ed.Source, c.N), c11NodeIndex(ed.Target, c.N)
 		if x < 0 || y < 0 || !rs[ed.Relation] || !mod.hasEdgeRel(x, y, ed.Relation, T) {
 			return fmt.Sprintf("reported edge %+v is not an active edge of an allowed relation at the queried time", ed)
 		}
+		// A BFS with a visited set expands every node once, so an edge is seen at most once from its
+		// source ("out") and once from its target ("in"). A repeated entry means a node was expanded
+		// again, i.e. the traversal re-walks cycles and its work is no longer bounded by the graph size.
+		if seen[ed] {
+			return fmt.Sprintf("edge %+v is reported more than once: a node was expanded repeatedly (the traversal re-walks cycles instead of visiting each node once)", ed)
+		}
+		seen[ed] = true
 	}
 	return ""
 }
@@ -411,7 +476,7 @@ func c11CheckSearch(e *engine.Engine, c c11Case, mod *c11Model, q c11Query, hasV
 	var ids []string
 	var err error
 	gq := &engine.GraphQuery{RootID: c11Node(q.Src), Relations: q.Rels, Direction: q.Dir, MaxDepth: q.Depth}
-	if m := c11Guard("VSearch", func() {
+	if m := c11GuardQuery("VSearch", func() {
 		ids, err = e.VSearch(c11Index, []float32{0.5, 0.75}, 16, "", "", 0, 1.0, gq)
 	}); m != "" {
 		return m
@@ -467,7 +532,7 @@ func c11CheckTrav(e *engine.Engine, c c11Case, mod *c11Model, q c11Query, hasVec
 	}
 	var root *engine.GraphNode
 	var err error
-	if m := c11Guard("VTraverse", func() { root, err = e.VTraverse(c11Index, c11Node(q.Src), paths) }); m != "" {
+	if m := c11GuardQuery("VTraverse", func() { root, err = e.VTraverse(c11Index, c11Node(q.Src), paths) }); m != "" {
 		return m
 	}
 	if !hasVec(q.Src) {
@@ -556,4 +621,110 @@ func c11CheckTrav(e *engine.Engine, c c11Case, mod *c11Model, q c11Query, hasVec
 		}
 	}
 	return ""
+}
+
+// ---------------------------------------------------------------- minimisation of a failing case
+
+// c11Minimize greedily simplifies a failing case (on top of rapid's own
+// shrinking, which cannot delete the backbone the generator insists on): keep
+// one failing query, delete ops, drop unused nodes, neutralise inverse
+// relations / weights / missing vectors, as long as the case still fails.
+func c11Minimize(c c11Case, run func(c11Case) string) (c11Case, string) {
+	c = c11Sanitize(c)
+	msg := run(c)
+	if msg == "" {
+		return c, ""
+	}
+	if strings.Contains(msg, "did not return within") {
+		return c, msg // every further attempt would cost the full watchdog and leak a spinning goroutine
+	}
+	try := func(cand c11Case) bool {
+		if m := run(cand); m != "" {
+			c, msg = cand, m
+			return true
+		}
+		return false
+	}
+	// 1. one query
+	single := false
+	for i := range c.Queries {
+		cand := c
+		cand.Queries = []c11Query{c.Queries[i]}
+		if try(cand) {
+			single = true
+			break
+		}
+	}
+	if !single {
+		for i := len(c.Queries) - 1; i >= 0 && len(c.Queries) > 1; i-- {
+			cand := c
+			cand.Queries = append(append([]c11Query{}, c.Queries[:i]...), c.Queries[i+1:]...)
+			try(cand)
+		}
+	}
+	// 2. ops
+	for changed := true; changed; {
+		changed = false
+		for j := len(c.Ops) - 1; j >= 0; j-- {
+			cand := c
+			cand.Ops = append(append([]c11Op{}, c.Ops[:j]...), c.Ops[j+1:]...)
+			cand.Queries = append([]c11Query{}, c.Queries...)
+			for qi := range cand.Queries {
+				if cand.Queries[qi].T.Op >= j && cand.Queries[qi].T.Op >= 0 {
+					cand.Queries[qi].T.Op--
+				}
+			}
+			if try(cand) {
+				changed = true
+			}
+		}
+	}
+	// 3. simplify ops and vectors
+	for j := range c.Ops {
+		if c.Ops[j].Inv != "" {
+			cand := c
+			cand.Ops = append([]c11Op{}, c.Ops...)
+			cand.Ops[j].Inv = ""
+			try(cand)
+		}
+		if c.Ops[j].W > 1 {
+			cand := c
+			cand.Ops = append([]c11Op{}, c.Ops...)
+			cand.Ops[j].W = 1
+			try(cand)
+		}
+	}
+	for i := range c.Vec {
+		if c.Vec[i] != 1 {
+			cand := c
+			cand.Vec = append([]int{}, c.Vec...)
+			cand.Vec[i] = 1
+			try(cand)
+		}
+	}
+	// 4. unused trailing nodes
+	for c.N > 1 {
+		used := false
+		last := c.N - 1
+		for _, op := range c.Ops {
+			if op.Src == last || op.Dst == last {
+				used = true
+			}
+		}
+		for _, q := range c.Queries {
+			if q.Src == last || (q.API == "path" && q.Dst == last) {
+				used = true
+			}
+		}
+		if used {
+			break
+		}
+		cand := c
+		cand.N = last
+		cand.Vec = append([]int{}, c.Vec[:last]...)
+		if !try(cand) {
+			break
+		}
+	}
+	return c, msg
 }
